@@ -108,8 +108,18 @@ where
     //     between threads safely
 {
     pub(crate) writers_handle: WritersHandle,
+    // shared by all clones of this handle: only the last clone that is dropped shuts down the writers
+    alive: Arc<()>,
     #[cfg(feature = "specfile")]
     pub(crate) oam_specfile_watcher: Option<Arc<Mutex<Debouncer<RecommendedWatcher>>>>,
+}
+impl Drop for LoggerHandle {
+    fn drop(&mut self) {
+        // dropping one clone must not stop the output of the logger while other clones are alive
+        if Arc::into_inner(std::mem::take(&mut self.alive)).is_some() {
+            self.shutdown();
+        }
+    }
 }
 impl LoggerHandle {
     pub(crate) fn new(
@@ -124,6 +134,7 @@ impl LoggerHandle {
                 primary_writer,
                 other_writers,
             },
+            alive: Arc::new(()),
             #[cfg(feature = "specfile")]
             oam_specfile_watcher: None,
         }
@@ -520,14 +531,6 @@ impl WritersHandle {
             max_level = std::cmp::max(max_level, w.max_log_level());
         }
         log::set_max_level(max_level);
-    }
-}
-impl Drop for WritersHandle {
-    fn drop(&mut self) {
-        self.primary_writer.shutdown();
-        for writer in self.other_writers.values() {
-            writer.shutdown();
-        }
     }
 }
 
